@@ -1,4 +1,4 @@
-# Registry of property checks for /verif/check.  quick = (cases, timeout_s); thorough = (shards, cases_per_shard, timeout_s)
+# Registry of property checks for /verif/check.  quick = (cases, timeout_s) or (shards, cases_per_shard, timeout_s); thorough = (shards, cases_per_shard, timeout_s)
 def props(P0):
     def P(*a, **kw):
         try:
@@ -15,25 +15,25 @@ def _props(P):
     front = lambda test, q, th, **kw: P("front", test, q, th, **kw)
     proc = lambda test, q, th, **kw: P("proc", test, q, th, extra_env={"VERIF_NEEDS_SERVER": "1"}, **kw)
     return {
-        "C01": sim("TestC01", (1200, 300), (16, 12000, 3000)),
-        "C02": sim("TestC02", (400, 300), (16, 6000, 3000)),
-        "C03": sim("TestC03", (1200, 300), (16, 12000, 3000)),
-        "C04": sim("TestC04", (1200, 300), (16, 12000, 3000)),
-        "C05": sim("TestC05", (1200, 300), (16, 12000, 3000), regress="TestRegressC05"),
-        "C06": sim("TestC06", (60, 300), (16, 120, 3000), level="fault_enumeration",
+        "C01": sim("TestC01", (4, 1200, 300), (16, 12000, 3000)),
+        "C02": sim("TestC02", (4, 500, 300), (16, 6000, 3000)),
+        "C03": sim("TestC03", (4, 1200, 300), (16, 12000, 3000)),
+        "C04": sim("TestC04", (4, 1200, 300), (16, 12000, 3000)),
+        "C05": sim("TestC05", (4, 1200, 300), (16, 12000, 3000), regress="TestRegressC05"),
+        "C06": sim("TestC06", (4, 40, 300), (16, 120, 3000), level="fault_enumeration",
                    also=[dict(pkg="proc", test="TestC06b", quick=(6, 300), thorough=(8, 12, 2400), env={"VERIF_NEEDS_SERVER": "1"})]),
-        "C07": sim("TestC07", (1200, 300), (16, 12000, 3000)),
-        "C08": sim("TestC08", (1200, 300), (16, 12000, 3000)),
-        "C09": sim("TestC09", (1200, 300), (16, 15000, 3000)),
-        "C10": sim("TestC10", (1200, 300), (16, 12000, 3000)),
-        "C11": sim("TestC11", (300, 300), (16, 5000, 3000), regress="TestRegressC11"),
+        "C07": sim("TestC07", (4, 1000, 300), (16, 12000, 3000)),
+        "C08": sim("TestC08", (4, 1000, 300), (16, 12000, 3000)),
+        "C09": sim("TestC09", (4, 1200, 300), (16, 15000, 3000)),
+        "C10": sim("TestC10", (4, 1200, 300), (16, 12000, 3000)),
+        "C11": sim("TestC11", (4, 300, 300), (16, 5000, 3000), regress="TestRegressC11"),
         "C13": proc("TestC13", (4, 420), (12, 40, 3000)),
-        "C14": sim("TestC14", (600, 300), (16, 10000, 3000)),
-        "C15": front("TestC15", (1500, 300), (8, 20000, 1200)),
-        "C12": P("kernelq", "TestC12", (1500, 300), (16, 6000, 1800)),
-        "C18": P("pollt", "TestC18", (1500, 300), (16, 6000, 1200)),
-        "C19": P("route", "TestC19", (20000, 300), (16, 100000, 1200)),
-        "C16": store("TestC16", (400, 300), (16, 1200, 2400)),
-        "C17": store("TestC17", (500, 300), (16, 2500, 2400)),
+        "C14": sim("TestC14", (4, 600, 300), (16, 10000, 3000)),
+        "C15": front("TestC15", (4, 1500, 300), (8, 20000, 1200)),
+        "C12": P("kernelq", "TestC12", (4, 1500, 300), (16, 6000, 1800)),
+        "C18": P("pollt", "TestC18", (4, 1500, 300), (16, 6000, 1200)),
+        "C19": P("route", "TestC19", (4, 20000, 300), (16, 100000, 1200)),
+        "C16": store("TestC16", (4, 300, 300), (16, 1200, 2400)),
+        "C17": store("TestC17", (4, 400, 300), (16, 2500, 2400)),
         "C20": proc("TestC20", (150, 420), (8, 1500, 3000)),
     }
